@@ -8,7 +8,7 @@
 From Coq Require Import ZArith List String.
 Local Open Scope string_scope.
 From Acme.C16 Require Import Model.
-From Acme.C15 Require Import Model Spec Proofs.
+From Acme.C15 Require Import Model Spec Proofs Mutators ProofsMut.
 
 (* Map iteration order (every oracle, at every site) cannot be observed. *)
 Theorem md_oracle_free : forall o1 o2 r, valid o1 -> valid o2 -> wf_net r ->
@@ -115,3 +115,31 @@ Print Assumptions wf_net_preserved.
 Theorem wf_net_example : wf_net ex_rnet.
 Proof. exact ex_rnet_wf. Qed.
 Print Assumptions wf_net_example.
+
+(* More of the history leg inside the model (coq/C15/Mutators.v): the mutators that rewrite a
+   component of [msg_key] (Message.UpdateName / UpdateID / SetStaticCANID), permute the receiver map
+   (RemoveReceiver / AddReceiver) or move an enum value (SignalEnumValue.UpdateIndex) preserve
+   [wf_net] under the conditions under which acmelib accepts the call, stated on the network before
+   the call.  The mutators themselves are compared with the Go methods on dumped (before, after)
+   pairs by the correspondence driver (signature c15-mutator-model:<mutator>). *)
+Theorem wf_net_preserved_more :
+  (forall h new r, wf_net r -> msg_name_ok h new r -> wf_net (mut_msg_name h new r))
+  /\ (forall h new canid r, wf_net r -> msg_id_ok h new r -> wf_net (mut_msg_id h new canid r))
+  /\ (forall h new r, wf_net r -> msg_static_ok r -> wf_net (mut_msg_static h new r))
+  /\ (forall h node r, wf_net r -> wf_net (mut_msg_remove_recv h node r))
+  /\ (forall h rc r, wf_net r -> msg_add_recv_ok h rc r -> wf_net (mut_msg_add_recv h rc r))
+  /\ (forall eid old new r, wf_net r -> enum_index_ok eid new r -> wf_net (mut_enum_value_index eid old new r)).
+Proof. exact wf_net_preserved_more_lemma. Qed.
+Print Assumptions wf_net_preserved_more.
+
+(* The acceptance conditions hold on the example network for changes that really move an entry of
+   a sorted getter. *)
+Theorem wf_net_preserved_more_example :
+  (msg_name_ok 10 "a first" ex_rnet /\ getter_order (mut_msg_name 10 "a first" ex_rnet) <> getter_order ex_rnet)
+  /\ (msg_id_ok 10 3 ex_rnet /\ getter_order (mut_msg_id 10 3 3 ex_rnet) <> getter_order ex_rnet)
+  /\ (msg_static_ok ex_rnet /\ getter_order (mut_msg_static 11 6 ex_rnet) <> getter_order ex_rnet)
+  /\ (getter_order (mut_msg_remove_recv 10 21 ex_rnet) <> getter_order ex_rnet)
+  /\ (msg_add_recv_ok 10 ex_new_recv ex_rnet /\ getter_order (mut_msg_add_recv 10 ex_new_recv ex_rnet) <> getter_order ex_rnet)
+  /\ (enum_index_ok 0 7 ex_rnet /\ value_order (mut_enum_value_index 0 0 7 ex_rnet) <> value_order ex_rnet).
+Proof. exact mutators_example. Qed.
+Print Assumptions wf_net_preserved_more_example.
